@@ -234,7 +234,7 @@ def synth_vardct(ctx, n, max_blocks=36):
     rng = ctx.rng
     lines = []
     for _ in range(n):
-        bw, bh = rng.choice([(1, 1), (2, 2), (3, 2), (4, 4), (5, 3), (6, 6), (9, 4), (33, 1), (17, 3)])
+        bw, bh = rng.choice([(1, 1), (2, 2), (3, 2), (4, 4), (5, 3), (6, 6), (9, 4), (33, 1), (17, 3), (40, 33), (64, 20)])
         while bw * bh > max_blocks:
             bw, bh = max(1, bw // 2), max(1, bh // 2)
         lines.append(f"jpeg {rng.randrange(1, 10 ** 6)} {bw} {bh} {rng.choice('isr')} {rng.choice('dzn')} "
